@@ -3,6 +3,7 @@ package ast
 import (
 	"strings"
 
+	"github.com/xjslang/xjs/simhook"
 	"github.com/xjslang/xjs/sourcemap"
 )
 
@@ -19,6 +20,7 @@ type CodeWriter struct {
 
 // WriteString writes a string to the buffer
 func (cw *CodeWriter) WriteString(s string) {
+	simhook.Point(simhook.WriterWrite)
 	cw.flushPending()
 	cw.Builder.WriteString(s)
 	if cw.Mapper == nil {
@@ -29,6 +31,7 @@ func (cw *CodeWriter) WriteString(s string) {
 
 // WriteRune writes a rune to the buffer
 func (cw *CodeWriter) WriteRune(r rune) {
+	simhook.Point(simhook.WriterWrite)
 	cw.flushPending()
 	cw.Builder.WriteRune(r)
 	if cw.Mapper == nil {
